@@ -26,7 +26,7 @@ PROPS = {
         "title": "handshake progress (first stale member gets a non-empty node delta when header + one operation fit; the initiator applies it and its frontier strictly advances, nothing moves back), deliverable iff ahead, frontiers bounded by the owner's max version; over the global relation: world potential never lowered by a non-evaluation step, raised by every handshake of a quiet lagging initiator, bounded by copies*(V+1)^2; FAIR ROUNDS: in a quiet one-cluster world every fair round (a handshake for every ordered pair) started unconverged raises the potential, so at most copies*(V+1)^2 fair rounds start unconverged (Rounds.v); the same for arbitrary schedules with noise between the handshakes — stale/duplicate deliveries, unanswered SYNs, heartbeats, ticks, GC, writes, non-removing evaluations (Schedules.v); also exercised by the conv suite; KF-2 witness (quarantine makes the statement false)",
     },
     "C02": {
-        "suites": [("kf1", 12, 60), ("proc", 300, 3000), ("conv", 30, 200), ("apply", 100, 1000), ("kv", 60, 400)],
+        "suites": [("kf1", 12, 60), ("proc", 300, 3000), ("conv", 30, 200), ("apply", 100, 1000), ("kv", 60, 400), ("catchup", 150, 1500)],
         "title": "in every state reachable without a weak acceptance (known finding KF-1), every copy and every message in flight is exact up to its frontier w.r.t. the owner's write ledger; with weak acceptances allowed the statement is refuted by a reachable 3-node history (vm_compute witness); the same with honest external catch-ups (any node fed any snapshot of any member at any time) in the step relation",
     },
     "C03": {
